@@ -134,9 +134,11 @@ public:
           -th / Scalar(2) + th * th2 / Scalar(24),
         };
       } else {
+        // (cos(th) - 1) / th without cancellation
+        const Scalar sh = sin(th / Scalar(2));
         return {
           sin(th) / th,
-          (cos(th) - Scalar(1)) / th,
+          -Scalar(2) * sh * sh / th,
         };
       }
     }();
